@@ -104,3 +104,7 @@ func vhTLSCert() tls.Certificate
 
 func vIDPStore() dsig.X509CertificateStore
 func vClockBetween(name string, lo, hi int64)
+
+func vDebugErr(label string, err error)
+
+func vIDString(name string) string
